@@ -187,24 +187,43 @@ Proof.
   - cbn [length]. rewrite app_length, cumsum_from_length. simpl. lia.
 Qed.
 
-(* the Markov-chain simulators give the same values when the product has ONE interval ... *)
-Theorem chain_single_interval inc : mc_jump_values [inc] = levy_jump_values [inc].
-Proof. unfold mc_jump_values, levy_jump_values. simpl. rewrite !app_nil_r. reflexivity. Qed.
-
-(* ... but restart at the origin at every product date (F-C15-4) *)
-Theorem chain_restart_refuted : exists incs, mc_jump_values incs <> levy_jump_values incs
-  /\ Qeq_bool (last (mc_jump_values incs) 0) (qsum (concat incs)) = false.
-Proof. exists [[1]; [1]]. split; [vm_compute; discriminate | vm_compute; reflexivity]. Qed.
-
-(* F-C15-1: the cap is applied before 0 and the maturity are added: a jump-free path is the single step [0, T],
-   and the step from the last (refined) time to the maturity is not refined either *)
-Theorem cap_whole_path_refuted :
-  (exists eps T, 0 < eps /\ eps < T /\ fst (capped_path 64 eps T [] []) = [0; T])
-  /\ (exists eps T times vals, 0 < eps /\ eps < T /\
-        let p := fst (capped_path 64 eps T times vals) in
-        Qle_bool (T - nth (length p - 2) p 0) eps = false).
+(* ---- the repaired Markov-chain jump-time simulators: one running path over all product intervals ---- *)
+Lemma cumsum_from_app : forall a acc b, cumsum_from acc (a ++ b) = cumsum_from acc a ++ cumsum_from (last (cumsum_from acc a) acc) b.
 Proof.
-  split.
-  - exists (1 # 4), 1. repeat split; vm_compute; reflexivity.
-  - exists (1 # 4), 1, [1 # 8], [1]. repeat split; vm_compute; reflexivity.
+  induction a as [|x a IH]; intros acc b; [reflexivity|].
+  cbn [app cumsum_from]. rewrite IH. f_equal. f_equal. f_equal.
+  destruct a as [|y a']; [reflexivity|]. cbn [cumsum_from].
+  change (last (acc + x + y :: cumsum_from (acc + x + y) a') (acc + x) = last (acc + x + y :: cumsum_from (acc + x + y) a') acc).
+  apply last_default.
 Qed.
+
+Lemma cumsum_from_shift c : forall l a a', c + a == a' -> Forall2 Qeq (map (Qplus c) (cumsum_from a l)) (cumsum_from a' l).
+Proof.
+  induction l as [|x r IH]; intros a a' E; [constructor|].
+  cbn [cumsum_from map]. constructor; [rewrite <- E; ring | apply IH; rewrite <- E; ring].
+Qed.
+
+Lemma Forall2_Qeq_last : forall a b d d', Forall2 Qeq a b -> d == d' -> last a d == last b d'.
+Proof.
+  induction 1 as [|x y a b E H IH]; intro Ed; [exact Ed|].
+  destruct H as [|x2 y2 a2 b2 E2 H2]; [exact E|].
+  change (last (x2 :: a2) d == last (y2 :: b2) d'). apply IH. assumption.
+Qed.
+
+Lemma Forall2_Qeq_app : forall a b c d, Forall2 Qeq a b -> Forall2 Qeq c d -> Forall2 Qeq (a ++ c) (b ++ d).
+Proof. induction 1; intros; [assumption | constructor; auto]. Qed.
+
+Lemma chain_running_gen : forall incs level level', level == level' ->
+  Forall2 Qeq (chain_running level incs) (cumsum_from level' (concat incs)).
+Proof.
+  induction incs as [|inc r IH]; intros level level' E; [constructor|].
+  cbn [chain_running concat]. rewrite cumsum_from_app.
+  assert (Hp : Forall2 Qeq (map (Qplus level) (cumsum inc)) (cumsum_from level' inc)).
+  { unfold cumsum. apply cumsum_from_shift. rewrite <- E. ring. }
+  apply Forall2_Qeq_app; [assumption|]. apply IH. apply Forall2_Qeq_last; assumption.
+Qed.
+
+(* C15_jump_times for the Markov-chain simulators (F-C15-4 repaired): any number of product intervals, the values are the
+   running sums of all increments so far *)
+Theorem chain_running_sum incs : Forall2 Qeq (mc_jump_values incs) (levy_jump_values incs).
+Proof. unfold mc_jump_values, levy_jump_values, cumsum. apply chain_running_gen. reflexivity. Qed.
